@@ -112,12 +112,15 @@ class DrawCtl:
 
     # random._inst.random  (random.choices)
     def _random(self):
-        if not self.total:
+        total = self.total
+        if isinstance(total, list):  # one total per draw (weights that change from row to row)
+            total = total[len(self.rand)] if len(self.rand) < len(total) else None
+        if not total:
             self.rand.append(None)
             return 0.0
-        x = _pick(self._policy(), 0, self.total - 1, self.rng)
+        x = _pick(self._policy(), 0, total - 1, self.rng)
         self.rand.append(x)
-        return (x + 0.5) / self.total
+        return (x + 0.5) / total
 
     # Faker generator.random
     class _FakerRandom:
@@ -387,6 +390,8 @@ def _raw_weight(raw):
 
 def real_choice(case, rng):
     form = case["form"]
+    if form == "items_rows":
+        return real_choice_rows(case, rng)
     n = len(case["draws"])
     if form == "list":
         k = case["n"]
@@ -421,9 +426,141 @@ def real_choice(case, rng):
         return {"outs": outs, "below": [list(d) for d in ctl.below], "rand": list(ctl.rand)}
 
 
+# ---- `choice:` items whose probabilities are formulas: the weight vector changes from row to row
+
+
+def _rows_index(case, r):
+    """Which row of the weight matrix applies to the r-th generated row (0-based over all iterations)."""
+    n = case["count"]
+    if case["style"] == "id":
+        return r
+    if case["style"] == "var":
+        return (r % n + case["k"]) % n
+    return r % n
+
+
+def _rows_weights(case, r):
+    return case["rows"][_rows_index(case, r)]
+
+
+def _rows_recipe(case):
+    n, cols = case["count"], len(case["rows"][0])
+    index = {"child_index": "child_index", "id": "id - 1", "var": f"(child_index + k) % {n}"}[case["style"]]
+    head = "- snowfakery_version: 3\n" if case.get("v3") else ""
+    if case["style"] == "var":
+        head += f"- var: k\n  value: {case['k']}\n"
+    lines = ["x:", "  random_choice:"]
+    for j in range(cols):
+        col = [row[j] for row in case["rows"]]
+        lines.append("    - choice:")
+        if j in case.get("literal", []):
+            lines.append(f"        probability: {col[0]}{'%' if case.get('pct') else ''}")
+        else:
+            lines.append(f"        probability: \"${{{{{col}[{index}]}}}}{'%' if case.get('pct') else ''}\"")
+        lines.append(f"        pick: o{j}")
+    body = "\n".join("    " + ln for ln in lines)
+    return f"{head}- object: A\n  count: {n}\n  fields:\n{body}\n"
+
+
+def real_choice_rows(case, rng):
+    n_rows = len(case["draws"])
+    cols = len(case["rows"][0])
+    totals = [sum(_rows_weights(case, r)) for r in range(n_rows)]
+    with _ctl(case, rng, total=totals) as ctl:
+        res = common.run_recipe(_rows_recipe(case), reps=case["reps"])
+        if res.outcome == "ok":
+            outs = []
+            for v in _field_values(res):
+                m = re.fullmatch(r"o(\d+)", v["v"]) if isinstance(v, dict) and v.get("t") == "str" else None
+                outs.append(["picked", int(m.group(1))] if m and int(m.group(1)) < cols else ["value?", repr(v)])
+        elif res.outcome == "recipe_error":
+            outs = [["error", classify_error(res.exc)]]
+        else:
+            outs = [["error", res.outcome]]
+        return {"outs": outs, "below": [], "rand": list(ctl.rand)}
+
+
+def oracle_choice_rows(rep, case, real):
+    outs = real["outs"]
+    if len(outs) != len(case["draws"]):
+        rep.violation("C11:choice-fails",
+                      f"random_choice with per-row formula weights produced {outs[:3]} for {len(case['draws'])} rows", case,
+                      "one listed option per row", outs[:5])
+        return
+    for r, o in enumerate(outs):
+        ws = _rows_weights(case, r)
+        positive = [j for j, w in enumerate(ws) if w > 0]
+        where = f"row {r} (iteration {r // case['count']}, child_index {r % case['count']}) with current weights {ws}"
+        if o[0] != "picked":
+            rep.violation("C11:choice-fails", f"random_choice failed at {where}: {o}", case, positive, o)
+            return
+        if ws[o[1]] <= 0:
+            rep.violation("C11:choice-zero-weight-picked",
+                          f"random_choice returned option {o[1]} whose weight is 0 at {where}", case, positive, o[1])
+            return
+        if len(positive) == 1 and o[1] != positive[0]:
+            rep.violation("C11:choice-all-weight-not-picked",
+                          f"option {positive[0]} holds all the weight at {where} but option {o[1]} was returned", case,
+                          positive[0], o[1])
+            return
+        pol = case["draws"][r]
+        if (pol == "lo" and o[1] != positive[0]) or (pol == "hi" and o[1] != positive[-1]):
+            rep.violation("C11:choice-end-unreachable",
+                          f"extreme draw ({pol}) at {where} picked option {o[1]}", case,
+                          positive[0] if pol == "lo" else positive[-1], o[1])
+            return
+
+
+def model_reqs_choice_rows(case, real):
+    reqs = []
+    for r in range(len(case["draws"])):
+        x = real["rand"][r] if r < len(real["rand"]) and real["rand"][r] is not None else 0
+        kind = "pct" if case.get("pct") else "int"
+        reqs.append({"m": "c11.choice_items", "weights": [[kind, w] for w in _rows_weights(case, r)], "x": x})
+    return reqs
+
+
+def gen_choice_rows(rng, forced=True):
+    n = rng.choice([2, 3, 4, 5])
+    reps = rng.choice([1, 2, 2, 3])
+    cols = rng.choice([2, 2, 3, 4])
+    style = rng.choice(["child_index", "child_index", "id", "var"])
+    n_matrix = n * reps if style == "id" else n
+    literal = [j for j in range(cols) if rng.random() < 0.25]
+    if len(literal) == cols:
+        literal = literal[:-1]
+    const = {j: rng.choice([0, 0, 10, 50]) for j in literal}
+    rows = []
+    for i in range(n_matrix):
+        kind = rng.random()
+        if kind < 0.45:      # one option holds all the weight of the formula columns
+            row = [0] * cols
+            free = [j for j in range(cols) if j not in literal]
+            row[rng.choice(free)] = rng.choice([1, 50, 100])
+        elif kind < 0.75:    # some zeros
+            row = [rng.choice([0, 0, 5, 30, 100]) for _ in range(cols)]
+        else:
+            row = [rng.choice([1, 10, 20, 30, 60, rng.randint(1, 500)]) for _ in range(cols)]
+        for j in literal:
+            row[j] = const[j]
+        if sum(row) == 0:
+            free = [j for j in range(cols) if j not in literal]
+            row[rng.choice(free)] = 100
+        rows.append(row)
+    draws = ["real"] * (n * reps) if not forced else [rng.choice(["lo", "hi", "mid", "mid"]) for _ in range(n * reps)]
+    case = {"kind": "choice", "form": "items_rows", "count": n, "reps": reps, "style": style, "rows": rows,
+            "literal": literal, "pct": rng.random() < 0.4, "v3": rng.random() < 0.6, "draws": draws}
+    if style == "var":
+        case["k"] = rng.randint(0, n - 1)
+    return case
+
+
+
 def oracle_choice(rep, case, real):
     outs = real["outs"]
     form = case["form"]
+    if form == "items_rows":
+        return oracle_choice_rows(rep, case, real)
     if form == "list":
         k = case["n"]
         for i, o in enumerate(outs):
@@ -488,6 +625,8 @@ def _model_raw(w):
 
 
 def model_reqs_choice(case, real):
+    if case["form"] == "items_rows":
+        return model_reqs_choice_rows(case, real)
     reqs = []
     n = len(case["draws"])
     if case["form"] == "list":
@@ -1170,6 +1309,8 @@ _KINDS = {
 def _in_model_fragment(case):
     if case["draws"] and case["draws"][0] == "real":
         return False
+    if case["kind"] == "choice" and case["form"] == "items_rows":
+        return True
     if case["kind"] == "choice" and case["form"] != "list":
         return all(w is None or w[0] in ("int", "pct", "str") for w in case["weights"])
     return True
@@ -1180,6 +1321,8 @@ def _nontrivial(case):
     if k == "rn":
         return case["max"] > case["min"] and case["step"] >= 1
     if k == "choice":
+        if case["form"] == "items_rows":
+            return len({tuple(_rows_weights(case, r)) for r in range(len(case["draws"]))}) >= 2
         return (case.get("n") or len(case.get("weights", []))) >= 2
     return case["start"] != case["end"]
 
@@ -1201,7 +1344,15 @@ def _histogram(rep, case, real):
             rep.count("rn:equal")
     elif k == "choice":
         rep.count("choice:form:" + case["form"])
-        if case["form"] != "list" and any(w is not None and w[1] == 0 for w in case["weights"]):
+        if case["form"] == "items_rows":
+            rep.count("choice:rows:style:" + case["style"])
+            rep.count("choice:rows:iterations", case["reps"])
+            rows = [_rows_weights(case, r) for r in range(len(case["draws"]))]
+            rep.count("choice:rows:row-with-all-weight-on-one", sum(1 for w in rows if sum(1 for x in w if x > 0) == 1))
+            rep.count("choice:rows:row-with-zero-weight", sum(1 for w in rows if 0 in w))
+            if len({tuple(w) for w in rows}) >= 2:
+                rep.count("choice:rows:weights-vary")
+        elif case["form"] != "list" and any(w is not None and w[1] == 0 for w in case["weights"]):
             rep.count("choice:has-zero-weight")
     elif k == "date":
         rep.count("date:spec:" + case["start"][0] + "/" + case["end"][0])
@@ -1257,6 +1408,10 @@ def fixed_cases():
     out.append({"kind": "choice", "form": "kw", "weights": [["int", 0], ["int", 10]], "draws": ["lo", "hi", "mid"]})
     out.append({"kind": "choice", "form": "kw", "weights": [["int", 0], ["int", 0]], "draws": ["lo"]})
     out.append({"kind": "choice", "form": "items", "weights": [["pct", 30], ["pct", 30], ["pct", 30]], "draws": ["lo", "hi", "mid"], "v3": True})
+    # weights that are formulas of child_index: all the weight moves from option 0 to option 1 after three rows
+    out.append({"kind": "choice", "form": "items_rows", "count": 6, "reps": 2, "style": "child_index",
+                "rows": [[100, 0], [100, 0], [100, 0], [0, 100], [0, 100], [0, 100]], "literal": [], "pct": False, "v3": True,
+                "draws": ["mid"] * 12})
     out.append({"kind": "date", "via": "recipe", "start": ["abs", "2000-01-01", "date"], "end": ["today"], "draws": ["lo", "hi", "mid"]})
     out.append({"kind": "date", "via": "recipe", "start": ["rel", 0, 0, 0, -30, 0, 0, 0], "end": ["rel", 0, 0, 0, 180, 0, 0, 0], "draws": ["lo", "hi", "mid"]})
     out.append({"kind": "date", "via": "func", "start": ["abs", "2024-02-29", "str"], "end": ["abs", "2024-02-29", "str"], "draws": ["lo", "hi"]})
@@ -1279,7 +1434,9 @@ def run(ctx, rep, findings):
     rep.rule = (
         "random_number triples (negative / equal / empty / huge ranges, steps 1, >1 incl. step > width, negative, 0) through "
         "function call, YAML function field and ${{formula}}; random_choice over plain lists, `choice:` items and "
-        "`option: weight` mappings (ints, percent strings, zeros, missing probability); date_between over absolute "
+        "`option: weight` mappings (ints, percent strings, zeros, missing probability); `choice:` items whose probability "
+        "is a FORMULA of child_index / id / a var, so that the weight vector changes from row to row over 2-5 rows and "
+        "1-3 iterations (rows where one option holds all the weight, rows with zero weights; oracle and model per row); date_between over absolute "
         "(leap days, epoch, far future), `today` and relative ±y/M/w/d(+h/m/s) bounds; datetime_between over written "
         "date-times with/without UTC offsets and fractional seconds, dates, today, now, equal and reversed bounds, "
         "optional result timezone. Every case runs 3-5 rows: the two extreme draws (lo, hi) and harness-chosen interior "
@@ -1307,13 +1464,17 @@ def run(ctx, rep, findings):
         rep.extra["exhaustive_relative_years"] = [-300, 300]
         rep.extra["exhaustive_relative_months"] = [-1200, 1200]
     n_head = len(cases)
-    for _ in range(n_fast):
+    for i in range(n_fast):
         for g in gens:
             cases.append(g(rng))
-    for _ in range(n_real):
+        if i % 6 == 0:
+            cases.append(gen_choice_rows(rng))
+    for i in range(n_real):
         for g in gens:
             cases.append(g(rng, forced=False))
         cases.append(gen_choice(rng, forced=False, fractional=True))
+        if i % 4 == 0:
+            cases.append(gen_choice_rows(rng, forced=False))
     t_budget = 100 if ctx.tier == "quick" else 780
     t0 = time.time()
     # interleave so that an early stop still covers every function
